@@ -27,6 +27,7 @@ import NurbsVerif.Lemmas.NormalizeAnyMag
 import NurbsVerif.Lemmas.RatTangentReal
 import NurbsVerif.Lemmas.RatTangentWitness
 import NurbsVerif.Lemmas.SpanRDers
+import NurbsVerif.Lemmas.SpanRDersA38
 
 /-!
 # C02  Derivatives returned are the true derivatives of the shape  (statements so far)
@@ -1209,6 +1210,48 @@ theorem rational_surface_derivatives_repaired_on_domain (pu pv d : ℕ) (Uu Uv :
   ⟨(ratSurfaceDersA36R_true pu pv d Uu Uv su sv Pw hUu hUv hlen hP hwt u v hu1 hu2 hv1 hv2 order k l c hk hl hc).1,
    (ratSurfaceDersA36R_true pu pv d Uu Uv su sv Pw hUu hUv hlen hP hwt u v hu1 hu2 hv1 hv2 order k l c hk hl hc).2,
    (ratSurfaceDersR_true pu pv d Uu Uv su sv Pw hUu hUv hlen hP hwt u v hu1 hu2 hv1 hv2 order k l c hk hl hc).2⟩
+
+/-- **A3.7 + A3.8 as coded through the repaired search** (`SurfaceEvaluator2.derivatives`, model `surfaceDersA38R` =
+    `surfaceDersA38` on the span pair `findSpanLinearR` finds; op `sders38r`): on the closed domain of EVERY sorted knot
+    vectors with `U_p < U_n` per direction (`DomOk`; the last domain span may be empty) the table returned is the triangular
+    tensor-formula table `surfaceDersR … true`, every entry `[k][l]` with `k + l ≤ order` is the mixed partial derivative
+    of the bivariate span polynomial of the (legal, non-empty, parameter-containing) span pair found – at `u = U_n` /
+    `v = V_m` from the left – and the entries with `k + l > order` are the zero vectors `SKL` was initialised with. -/
+theorem a38_as_coded_repaired_on_domain (pu pv d : ℕ) (Uu Uv : ℕ → F) (su sv : ℕ) (P : List (List F))
+    (hUu : DomOk pu Uu su) (hUv : DomOk pv Uv sv) (hlen : P.length = su * sv) (hP : NetOk d P) (u v : F)
+    (hu1 : Uu pu ≤ u) (hu2 : u ≤ Uu su) (hv1 : Uv pv ≤ v) (hv2 : v ≤ Uv sv) (order : ℕ) :
+    surfaceDersA38R pu pv Uu Uv su sv P u v order = surfaceDersR pu pv Uu Uv su sv P u v order true ∧
+    (∀ k l j, k + l ≤ order →
+      (((surfaceDersA38R pu pv Uu Uv su sv P u v order).getD k []).getD l []).getD j 0
+        = (pderivU^[k] (pderivV^[l] (surfSpanPoly pu pv Uu Uv sv P (findSpanLinearR pu Uu su u)
+            (findSpanLinearR pv Uv sv v) j))).evalEval u v) ∧
+    (∀ k l, k ≤ order → l ≤ order → order < k + l →
+      ((surfaceDersA38R pu pv Uu Uv su sv P u v order).getD k []).getD l [] = vzero (dimOf P)) :=
+  ⟨surfaceDersA38R_eq_surfaceDersR pu pv d Uu Uv su sv P hUu hUv hlen hP u v hu1 hu2 hv1 hv2 order,
+   fun k l j hkl => surfaceDersA38R_true pu pv d Uu Uv su sv P hUu hUv hlen hP u v hu1 hu2 hv1 hv2 order k l j hkl,
+   fun k l hk hl hkl =>
+     surfaceDersA38R_rest_zero pu pv d Uu Uv su sv P hUu hUv hlen hP u v hu1 hu2 hv1 hv2 order k l hk hl hkl⟩
+
+/-- … and with a non-empty last span per direction (`KnotsOk`) it is `surfaceDersA38` on the span pair of the search
+    without step back: the `a38_as_coded_…` theorems above are statements about the repaired code. -/
+theorem a38_as_coded_repaired_eq (pu pv : ℕ) (Uu Uv : ℕ → F) (su sv : ℕ) (P : List (List F)) (u v : F) (order : ℕ)
+    (hUu : KnotsOk pu Uu su) (hUv : KnotsOk pv Uv sv)
+    (hu1 : Uu pu ≤ u) (hu2 : u ≤ Uu su) (hv1 : Uv pv ≤ v) (hv2 : v ≤ Uv sv) :
+    surfaceDersA38R pu pv Uu Uv su sv P u v order
+      = surfaceDersA38 pu pv Uu Uv su sv P (findSpanLinear pu Uu su u) (findSpanLinear pv Uv sv v) u v order :=
+  surfaceDersA38R_eq pu pv Uu Uv su sv P u v order hUu hUv hu1 hu2 hv1 hv2
+
+/-- non-vacuity / closed witness: degree (2,1), `Uu = [0,0,1,2,4,4,5,5]` (empty last domain span `[4,4]`), `u = 4 = U_5`,
+    `v = 1/2`: A3.7 + A3.8 as coded on the span pair the repaired search finds equals the triangular table, and its
+    `[1][0]` entry is non-zero (the table on the empty span 4 would be all zeros). -/
+theorem a38_as_coded_repaired_witness_F01b :
+    let Uu := fnOf ([0,0,1,2,4,4,5,5] : List ℚ)
+    let Uv := fnOf ([0,0,1,1] : List ℚ)
+    let P : List (List ℚ) := [[0,0],[0,1],[1,2],[1,3],[2,0],[2,2],[3,1],[3,4],[5,0],[5,1]]
+    findSpanLinearR 2 Uu 5 4 = 3 ∧
+    surfaceDersA38R 2 1 Uu Uv 5 2 P 4 (1/2) 1 = surfaceDersR 2 1 Uu Uv 5 2 P 4 (1/2) 1 true ∧
+    ((surfaceDersA38R 2 1 Uu Uv 5 2 P 4 (1/2) 1).getD 1 []).getD 0 [] ≠ [0, 0] := by
+  decide +kernel
 
 /-- **With a non-empty last span the R tables ARE the tables of the theorems above** (`KnotsOk` per direction, every
     parameter of the closed domain): every statement of this file about the derivative tables on the span `findSpanLinear`
